@@ -106,7 +106,7 @@ func runLBAdmin(x *X) {
 	s := x.StartMicro()
 	net := newStubNet(x)
 	// hosts h1..h6 exist; names are drawn from a small set so that they repeat
-	hostOf := func(i int) string { return fmt.Sprintf("10.5.0.%d:80", i) }
+	hostOf := func(i int) string { return x.BackendHost(5, i) }
 	// in half of the runs some hosts take their time: their requests are still in flight
 	// while members come and go around them
 	slowHosts := c.Intn(2, "slow-hosts") == 1
